@@ -247,8 +247,9 @@ func (e *executableWorkflow) Execute(ctx context.Context, serializedInput any) (
 			}
 			return e.handleOutput(l, outputDataEntry)
 		case err := <-l.recentErrors: // The context is done, so instead just check for errors.
-			// Put it back in the channel
-			l.recentErrors <- err
+			// Put it back in the channel. The buffer may have been filled up again by steps reporting
+			// further errors in the meantime, so this must not block either.
+			l.reportError(err)
 			lastErrors := l.handleErrors()
 			l.logger.Errorf("workflow failed with error %s", err.Error())
 			return "", nil, lastErrors
